@@ -10,6 +10,7 @@ import (
 	"sort"
 	"strings"
 	"sync"
+	"time"
 	"unicode"
 
 	"github.com/samsarahq/thunder/internal/fields"
@@ -896,6 +897,15 @@ func driverValuesEqual(dv1, dv2 driver.Value) bool {
 			if b2, ok := dv2.([]byte); ok {
 				return bytes.Compare(b1, b2) == 0
 			}
+		}
+		return false
+	}
+
+	// Times are equal when they denote the same instant: the zone they are
+	// written in and a monotonic clock reading do not matter to the database.
+	if t1, ok := dv1.(time.Time); ok {
+		if t2, ok := dv2.(time.Time); ok {
+			return t1.Equal(t2)
 		}
 		return false
 	}
